@@ -26,12 +26,14 @@ fn scenario(id: &str) -> Option<&'static dyn Scenario> {
         "C04" => &scen::encode::C04,
         "C13" => &scen::encode::C13,
         "C17" => &scen::encode::C17,
+        "C08" => &scen::buckets::C08,
+        "C12" => &scen::locals::C12,
         "C09" => &scen::descs::C09,
         _ => return None,
     })
 }
 
-pub const ALL: &[&str] = &["C01", "C02", "C03", "C04", "C05", "C06", "C07", "C09", "C10", "C11", "C13", "C14", "C15", "C17"];
+pub const ALL: &[&str] = &["C01", "C02", "C03", "C04", "C05", "C06", "C07", "C08", "C09", "C10", "C11", "C12", "C13", "C14", "C15", "C17"];
 
 fn tier_of(s: &str) -> Tier {
     match s {
